@@ -26,7 +26,12 @@ var (
 // c12Schema builds the shared schema: a struct-backed type, a soft type and a
 // soft type whose Attrs/Rels maps are nil, in one of the 6 orders.
 func c12Schema(order int) *j.Schema {
-	types := []j.Type{c12A.Type(false), c12B.Type(true), {Name: "c"}}
+	tb := c12B.Type(true)
+	// a hand-declared one-way relationship may leave FromType empty (legal)
+	rs := tb.Rels["s"]
+	rs.FromType = ""
+	tb.Rels["s"] = rs
+	types := []j.Type{c12A.Type(false), tb, {Name: "c"}}
 	perm := mc.Perm(3, order)
 	s := &j.Schema{}
 	for _, i := range perm {
@@ -35,10 +40,15 @@ func c12Schema(order int) *j.Schema {
 		}
 	}
 	FixFromOne(s)
-	if errs := s.Check(); len(errs) > 0 {
+	return s
+}
+
+func init() {
+	// the shared schema is coherent; verified once on a twin so that the schema
+	// handed to the operations has never been touched by a query before
+	if errs := c12Schema(0).Check(); len(errs) > 0 {
 		panic(fmt.Sprint(errs))
 	}
-	return s
 }
 
 type c12Op struct {
